@@ -124,6 +124,16 @@ impl Space for Large {
     fn run(&self, idx: u64, out: &mut Outcome) {
         let p = (idx as usize * self.step).min(4095);
         let mut dig = Fnv::new();
+        if idx == 0 {
+            // one 70 KiB table: strings around the 2^16 boundary
+            let mut t: Vec<u8> = (0..70_000usize).map(|i| b'a' + (i % 23) as u8).collect();
+            for p in [255usize, 256, 65_534, 65_535, 65_536, 65_600, 69_999] {
+                t[p] = 0;
+            }
+            for off in [0usize, 254, 255, 256, 257, 65_533, 65_534, 65_535, 65_536, 65_537, 65_599, 65_600, 65_601, 69_998, 69_999, 70_000] {
+                check_one(&t, off, out, &mut dig);
+            }
+        }
         for fill in 0..2 {
             let mut t: Vec<u8> = (0..4096).map(|i| if fill == 0 { b'a' + (i % 26) as u8 } else { [0xC3u8, 0xA9][i % 2] }).collect();
             t[p] = 0;
